@@ -9,9 +9,11 @@ package c07
 
 import (
 	"encoding/binary"
+	"fmt"
 	"math/big"
 	"os"
 	"sort"
+	"strings"
 	"testing"
 	"time"
 
@@ -61,11 +63,17 @@ type c07Op struct {
 	Wrap  int      `json:"wrap,omitempty"`  // 0 plain; 3: {2^63-1, 2^63-1, 2+t}; 4: {2^62, 2^62, 2^62, 2^62+t}  (int64 sum == t)
 	WrapT *c07Num  `json:"wrapt,omitempty"` // t
 	Base  int      `json:"base,omitempty"`  // first id of a wrap vote
-	Val   int      `json:"val,omitempty"`
-	Denom int      `json:"denom,omitempty"` // 0 uband, 1 ualt
-	Amt   *c07Num  `json:"amt,omitempty"`
-	N     int      `json:"n,omitempty"`  // end: number of blocks
-	Dt    int      `json:"dt,omitempty"` // end: seconds per block
+	// Same != 0: late-bound against the voter's standing vote (falls back to Sigs when there is none):
+	//   1 re-submit the identical vote; 2 same total redistributed over the same ids; 3 same total redistributed
+	//   over Parts consecutive ids starting at Base. Weights gives the shares of the redistribution.
+	Same    int     `json:"same,omitempty"`
+	Parts   int     `json:"parts,omitempty"`
+	Weights []int   `json:"weights,omitempty"`
+	Val     int     `json:"val,omitempty"`
+	Denom   int     `json:"denom,omitempty"` // 0 uband, 1 ualt
+	Amt     *c07Num `json:"amt,omitempty"`
+	N       int     `json:"n,omitempty"`  // end: number of blocks
+	Dt      int     `json:"dt,omitempty"` // end: seconds per block
 }
 
 type c07Case struct {
@@ -160,7 +168,17 @@ func genC07(rt *rapid.T) c07Case {
 		if c.NoWrap {
 			wWrap = 0
 		}
-		switch gen.Pick(rt, "shape", 60, 6, wWrap, 12) {
+		shape := gen.Pick(rt, "shape", 52, 6, wWrap, 12, 10)
+		if shape == 4 { // same total as my standing vote (identical / redistributed); plain signals are the fallback
+			o.Same = gen.OneOf(rt, "same", 1, 2, 2, 3, 3)
+			o.Parts = 1 + gen.Uniform(rt, "parts", c.MaxFeeds)
+			o.Base = gen.Uniform(rt, "sbase", c.K)
+			for i := 0; i < c.MaxFeeds; i++ {
+				o.Weights = append(o.Weights, gen.Range(rt, "wgt", 0, 4))
+			}
+			shape = 0
+		}
+		switch shape {
 		case 1: // empty vote
 			return o
 		case 3: // equal powers (a multiple of the threshold) on consecutive ids: ties and many eligible signals
@@ -204,9 +222,56 @@ func genC07(rt *rapid.T) c07Case {
 		return o
 	}
 
+	// constructed scenario (ordinary ops, so it shrinks like the rest): give a voter a delegation and a stake, vote
+	// with sum == power (or a fraction), re-vote the same total redistributed / identically, then withdraw so that
+	// power would end exactly 1 below the lock or far below it, then end the block.
+	genScenario := func() {
+		voter := gen.Uniform(rt, "scvoter", c.NVoters)
+		val := gen.Uniform(rt, "scval", c.NVals)
+		end := func(p int) {
+			if gen.Chance(rt, "scend", p, 10) {
+				c.Ops = append(c.Ops, c07Op{Kind: "end", N: 1, Dt: 1})
+			}
+		}
+		c.Ops = append(c.Ops, c07Op{Kind: "delegate", Voter: voter, Val: val, Amt: smallAmt()})
+		c.Ops = append(c.Ops, c07Op{Kind: "stake", Voter: voter, Denom: 0, Amt: smallAmt()})
+		end(9)
+		first := c07Op{Kind: "vote", Voter: voter}
+		n := 1 + gen.Uniform(rt, "scn", c.MaxFeeds)
+		start := gen.Uniform(rt, "scstart", c.K)
+		for i := 0; i < n; i++ {
+			p := c07Num{K: "abs", V: int64(gen.Range(rt, "scp", 1, 3))}
+			if i == n-1 {
+				p = gen.OneOf(rt, "sclast", c07Num{K: "rem"}, c07Num{K: "rem"}, c07Num{K: "rem", D: -1}, c07Num{K: "frac", V: 2}, c07Num{K: "frac", V: 3})
+			}
+			first.Sigs = append(first.Sigs, c07Sig{ID: (start + i) % c.K, P: p})
+		}
+		c.Ops = append(c.Ops, first)
+		end(9)
+		re := c07Op{Kind: "vote", Voter: voter, Same: gen.OneOf(rt, "scsame", 1, 2, 3, 3), Parts: 1 + gen.Uniform(rt, "scparts", c.MaxFeeds),
+			Base: gen.Uniform(rt, "scbase", c.K), Sigs: first.Sigs}
+		for i := 0; i < c.MaxFeeds; i++ {
+			re.Weights = append(re.Weights, gen.Range(rt, "scwgt", 0, 4))
+		}
+		c.Ops = append(c.Ops, re)
+		end(9)
+		amt := gen.OneOf(rt, "scamt", &c07Num{K: "edge", D: 1}, &c07Num{K: "edge", D: 1}, &c07Num{K: "all"}, &c07Num{K: "edge", D: 0}, &c07Num{K: "edge", D: 2})
+		if gen.Chance(rt, "scund", 1, 2) {
+			c.Ops = append(c.Ops, c07Op{Kind: "undelegate", Voter: voter, Val: val, Amt: amt})
+		} else {
+			c.Ops = append(c.Ops, c07Op{Kind: "unstake", Voter: voter, Denom: 0, Amt: amt})
+		}
+		c.Ops = append(c.Ops, c07Op{Kind: "end", N: 1, Dt: 1})
+	}
+
 	nops := rapid.IntRange(8, 45).Draw(rt, "nops")
 	for i := 0; i < nops; i++ {
 		w := gen.Uniform(rt, "opw", 100)
+		if i >= c.NVoters && gen.Chance(rt, "scenario", 1, 16) {
+			genScenario()
+			i += 5
+			continue
+		}
 		if i < c.NVoters {
 			w = 46 + gen.Uniform(rt, "initw", 2)*22 // the history starts by giving voters some power
 		}
@@ -486,7 +551,9 @@ func runC07(c c07Case) *pbt.Verdict {
 		bEq, bPlus, bMinus, wrapTo0, wrapAffordable, totalOverflowRej, withdrawRej          int
 		updateWithFeeds, feedsCut, tieCut, thrEq, intervalMin, intervalStep, inapplicable   int
 		multiVoterSignal                                                                    bool
+		revoteSame, withdrawAfterSame                                                       int
 	)
+	lastSame := make([]bool, c.NVoters) // the voter\'s latest accepted vote was a re-vote with an unchanged total (> 0)
 
 	resolve := func(n c07Num, voter int, used *big.Int, holding *big.Int) *big.Int {
 		pw := m.power(voter)
@@ -541,6 +608,62 @@ func runC07(c c07Case) *pbt.Verdict {
 			}
 			return sigs
 		}
+		if st := m.standing[voter]; o.Same != 0 && len(st) > 0 && m.lock(voter).Sign() > 0 && m.lock(voter).IsInt64() {
+			if o.Same == 1 {
+				return append([]c07Signal(nil), st...)
+			}
+			total := m.lock(voter).Int64()
+			var ids []string
+			if o.Same == 2 {
+				for _, x := range st {
+					ids = append(ids, x.ID)
+				}
+			} else {
+				n := o.Parts
+				if n < 1 {
+					n = 1
+				}
+				if n > c.K {
+					n = c.K
+				}
+				if n > c.MaxFeeds {
+					n = c.MaxFeeds
+				}
+				base := o.Base
+				if base < 0 {
+					base = -base
+				}
+				for i := 0; i < n; i++ {
+					ids = append(ids, c07IDs[(base+i)%c.K])
+				}
+			}
+			if int64(len(ids)) > total {
+				ids = ids[:total]
+			}
+			n := len(ids)
+			wsum := int64(0)
+			wgt := make([]int64, n)
+			for i := range wgt {
+				wgt[i] = 1
+				if i < len(o.Weights) && o.Weights[i] >= 0 {
+					wgt[i] = int64(o.Weights[i])
+				}
+				wsum += wgt[i]
+			}
+			rest := bi(total - int64(n))
+			given := new(big.Int)
+			for i, id := range ids {
+				share := new(big.Int)
+				if i == n-1 {
+					share = sub(rest, given)
+				} else if wsum > 0 {
+					share = new(big.Int).Quo(new(big.Int).Mul(rest, bi(wgt[i])), bi(wsum))
+					given.Add(given, share)
+				}
+				sigs = append(sigs, c07Signal{ID: id, P: 1 + share.Int64()})
+			}
+			return sigs
+		}
 		used := new(big.Int)
 		for _, s := range o.Sigs {
 			id := s.ID
@@ -576,6 +699,7 @@ func runC07(c c07Case) *pbt.Verdict {
 	var pendTxs [][]byte
 	expFeeds := []c07Feed{} // model of CurrentFeeds (genesis: empty)
 	feedsKey := ch.App.GetKey(feedstypes.StoreKey)
+	restakeKey := ch.App.GetKey(restaketypes.StoreKey)
 
 	addTx := func(o c07Op) {
 		voter := o.Voter
@@ -701,6 +825,49 @@ func runC07(c c07Case) *pbt.Verdict {
 		if all := fk.GetVotes(ctx); len(all) > c.NVoters {
 			v.Failf("C07/vote-store", "height %d: %d votes in the store, only %d voters", height, len(all), c.NVoters)
 		}
+
+		// (b1') restake by-power index (0x80 | len | addr | BigEndian(power) | vault key -> vault key): exactly one
+		// entry per Lock record (0x11 ...) carrying the lock's current power. The withdrawal guards look locks up
+		// through this index, so "locked against withdrawal" depends on it.
+		func() {
+			rstore := ctx.KVStore(restakeKey)
+			var want, got []string
+			it := storetypes.KVStorePrefixIterator(rstore, []byte{0x11})
+			for ; it.Valid(); it.Next() {
+				var l restaketypes.Lock
+				if err := ch.App.AppCodec().Unmarshal(it.Value(), &l); err != nil {
+					v.Failf("C07/lock-index", "height %d: undecodable lock at key %x", height, it.Key())
+					continue
+				}
+				a, err := sdk.AccAddressFromBech32(l.StakerAddress)
+				if err != nil || l.Power.IsNil() || !l.Power.IsUint64() {
+					v.Failf("C07/lock-index", "height %d: lock %v has no representable index entry", height, l)
+					continue
+				}
+				want = append(want, fmt.Sprintf("%x power=%d key=%s", []byte(a), l.Power.Uint64(), l.Key))
+			}
+			it.Close()
+			it = storetypes.KVStorePrefixIterator(rstore, []byte{0x80})
+			for ; it.Valid(); it.Next() {
+				k := it.Key()
+				if len(k) < 2 || len(k) < 2+int(k[1])+8 {
+					v.Failf("C07/lock-index", "height %d: malformed locks-by-power key %x", height, k)
+					continue
+				}
+				l := int(k[1])
+				key := string(k[2+l+8:])
+				if string(it.Value()) != key {
+					v.Failf("C07/lock-index", "height %d: locks-by-power key %x points at %q", height, k, it.Value())
+				}
+				got = append(got, fmt.Sprintf("%x power=%d key=%s", k[2:2+l], binary.BigEndian.Uint64(k[2+l:2+l+8]), key))
+			}
+			it.Close()
+			sort.Strings(want)
+			sort.Strings(got)
+			if strings.Join(want, "; ") != strings.Join(got, "; ") {
+				v.Failf("C07/lock-index", "height %d: locks-by-power index [%s] does not match the lock records [%s]", height, strings.Join(got, "; "), strings.Join(want, "; "))
+			}
+		}()
 
 		// (b2) SignalTotalPower store == sum over standing votes (from the Vote store and from the model)
 		store := ctx.KVStore(feedsKey)
@@ -970,6 +1137,10 @@ func runC07(c c07Case) *pbt.Verdict {
 							revote2++
 						}
 					}
+					lastSame[t.voter] = m.voted[t.voter] && lock.Sign() > 0 && sum.Cmp(lock) == 0
+					if lastSame[t.voter] {
+						revoteSame++
+					}
 					m.standing[t.voter] = append([]c07Signal(nil), t.sigs...)
 					m.voted[t.voter] = true
 				} else if sum.Cmp(pw) > 0 {
@@ -1026,6 +1197,9 @@ func runC07(c c07Case) *pbt.Verdict {
 					after.Sub(after, t.amt)
 				}
 				below := after.Cmp(lock) < 0
+				if below && t.amt.Cmp(hold) <= 0 && lastSame[t.voter] {
+					withdrawAfterSame++
+				}
 				if ok {
 					// (d) a withdrawal that takes total power below the locked power must be rejected
 					if below {
@@ -1106,6 +1280,8 @@ func runC07(c c07Case) *pbt.Verdict {
 	cls(tooMany, "too-many-signals")
 	cls(totalOverflowRej, "signal-total-overflow-rejected")
 	cls(withdrawRej, "withdraw-below-lock-rejected")
+	cls(revoteSame, "revote-same-total")
+	cls(withdrawAfterSame, "withdraw-after-same-total-revote")
 	cls(updateWithFeeds, "update-with-feeds")
 	cls(feedsCut, "more-eligible-than-max")
 	cls(tieCut, "tie-at-cut")
@@ -1126,6 +1302,8 @@ func runC07(c c07Case) *pbt.Verdict {
 	v.Count("boundary_votes", int64(boundary))
 	v.Count("wrap_votes", int64(wrapVotes))
 	v.Count("withdraw_below_lock_rejected", int64(withdrawRej))
+	v.Count("revote_same_total", int64(revoteSame))
+	v.Count("withdraw_after_same_total_revote", int64(withdrawAfterSame))
 	v.Count("inapplicable_ops", int64(inapplicable))
 	v.Count("blocks", ch.Height)
 	// DESIGN NT: >=1 re-vote changing >=2 signals and >=1 vote at a power boundary or with a wrapping sum
